@@ -43,6 +43,12 @@ pub fn run(ctx: &Ctx) -> i32 {
         // the word is present but never executed
         cases.push(Cli { name: format!("unreached-{kind}"), text: Some(format!("add r1 r1 #3\nhalt\n.fill x{w:04X}\n")), image: None, uses_ext: "none" });
     }
+    // an xD word that is not in the image: the program doubles half of it and stores it ahead
+    for (kind, w) in [("push", 0xD440u16), ("pop", 0xD080), ("call", 0xDC00), ("rets", 0xD800)] {
+        let half = w / 2;
+        cases.push(Cli { name: format!("synthesised-{kind}"), text: Some(format!("ld r0 half\nadd r0 r0 r0\nst r0 slot\nslot .fill x0000\nhalt\nhalt\nhalf .fill x{half:04X}\n")), image: None, uses_ext: "raw-word" });
+        cases.push(Cli { name: format!("synthesised-image-{kind}"), text: None, image: Some(vec![0x3000, 0x2005, 0x1000, 0x3001, 0x0000, 0xF025, 0xF025, half]), uses_ext: "raw-word" });
+    }
     for (i, (p, stack)) in seeds().into_iter().enumerate() {
         if !stack {
             cases.push(Cli { name: format!("seed{i}"), text: Some(print_plain(&p)), image: None, uses_ext: "none" });
@@ -242,7 +248,7 @@ pub fn run(ctx: &Ctx) -> i32 {
         ctx,
         acc,
         Level { category: "model_checking", bfs: None },
-        "exhaustive configuration enumeration: {no flag, -f stack, --features stack, --features=} x sources using each of push/pop/call/rets as instruction (three letter cases), in label position and as a label operand; sources and .lc3 images with raw xD words of all four sub-kinds reached at run time (and present but never reached); 8 seed programs without the extension - through `lace compile`, `lace run`, the bare-path form `lace FILE` and `lace debug FILE --command quit` of the real binary (the latter two must behave like `run`): without the flag the diagnostic must name the feature and opcode xD must exit with status 1 having executed only what precedes it, with it the programs assemble and run as the reference machine says. In-process: a corpus of programs without the four mnemonics (E1 single statements, E2 label placements, .fill sweep) and the C03 templates without opcode xD, assembled / run under BOTH flag values and compared with the flag-independent reference. non-trivial = agreeing cases",
+        "exhaustive configuration enumeration: {no flag, -f stack, --features stack, --features=, the list forms `,stack` `stack,` `,,stack` `,`} x sources using each of push/pop/call/rets as instruction (three letter cases), in label position and as a label operand; sources and .lc3 images with raw xD words of all four sub-kinds reached at run time (and present but never reached), and programs that synthesise such a word at run time (it is not in the image); 8 seed programs without the extension - through `lace compile`, `lace run`, the bare-path form `lace FILE` and `lace debug FILE --command quit` of the real binary (the latter two must behave like `run`): without the flag the diagnostic must name the feature and opcode xD must exit with status 1 having executed only what precedes it, with it the programs assemble and run as the reference machine says. In-process: a corpus of programs without the four mnemonics (E1 single statements, E2 label placements, .fill sweep) and the C03 templates without opcode xD, assembled / run under BOTH flag values and compared with the flag-independent reference. non-trivial = agreeing cases",
         true,
         &["rejected-with-feature-diagnostic", "opcode-xD-gated-at-run-time", "extension-executes-with-flag", "corpus-image-flag-independent", "run-flag-independent"],
         &["reference image and machine are flag-independent for programs that avoid the extension"],
